@@ -30,15 +30,14 @@ Proof. exact terminated_once_lemma. Qed.
 Print Assumptions terminated_once.
 
 (* After termination: receive_datagram changes nothing (no event), datagrams_to_send returns no
-   datagram (IndexError instead if no network path was ever adopted -- the server whose only input
-   was unparsable), get_timer() is None, close() and connect() have no effect, and handle_timer()
+   datagram (also when no network path was ever adopted -- the server whose only input was
+   unparsable; IndexError before fix ed82a68), get_timer() is None, close() and connect() have no effect, and handle_timer()
    raises TypeError (so it cannot queue a second event). *)
 Theorem terminated_quiet : forall client o ops, first_op client o ->
   c_state (snd (run (conn_init client) (o :: ops))) = TERMINATED ->
   let c := snd (run (conn_init client) (o :: ops)) in
   (forall now idle0 ps, receive now idle0 ps c = c) /\
-  (forall now pto3 p nev, send now pto3 p nev c = Ok (SNone, c) \/ send now pto3 p nev c = Err X_INDEX) /\
-  (forall now pto3 p nev, c_has_path c = true -> send now pto3 p nev c = Ok (SNone, c)) /\
+  (forall now pto3 p nev, send now pto3 p nev c = Ok (SNone, c)) /\
   (forall acks loss pacing, get_timer acks loss pacing c = (Ok None, c)) /\
   do_close EV_LOCAL c = c /\
   (forall now idle, connect now idle c = Err X_ASSERT) /\
